@@ -20,6 +20,12 @@ REQUIRED_BRANCHES = [
     "merge-explained",        # an introduceMerge of the real writer reproduced by the model's introduceMerge
     "id-with-several-live-docs",   # multiset semantics exercised (Insert on a live id)
     "batch-names-id-twice",   # the dedicated known-finding probe ran
+    # merge-window cases: the real merger is parked at EventKindMergeTaskIntroductionStart, batches hit the merging segments
+    "mergewindow:held",
+    "mergewindow:delete-during-file-merge",            # a delete/update of a document of a merging segment while the merge ran
+    "mergewindow:size-order-differs-from-id-order",    # the planner's task order (live size descending) is not the id order
+    "mergewindow:delete-during-file-merge-with-size-order-differing",
+    "mergewindow:input-with-prior-deletions",
 ]
 ASSUMPTIONS = [
     "segment plugin (ice v1/v2): a segment is an immutable list of documents, doc number = position in the batch "
